@@ -48,6 +48,9 @@ type c15World struct {
 	ready    bool
 	opN      [len(c15OpNames)][6]int // [operation][status/100]
 	extra    [][]byte                // small non-model blobs clients may upload
+
+	remote    *apiFamily // model published on the simulated registry (nil: none this run)
+	pullBurst bool       // every client starts by pulling it: concurrent pulls share one download
 }
 
 var c15OpNames = [...]string{"generate", "chat", "embed", "embeddings", "ps", "tags", "show", "create", "copy", "delete", "blob-upload", "blob-head",
@@ -357,9 +360,27 @@ func (cw *c15World) ps() {
 	}
 }
 
+func (cw *c15World) pullRemote() {
+	req := api.PullRequest{Model: cw.remote.names[0], Insecure: true, Stream: boolp(verifsim.Draw("stream", 2) == 0)}
+	r := cw.apiJSON(context.Background(), "POST", "/api/pull", req)
+	cw.count("pull", r.code)
+	if r.code == 200 && strings.Contains(r.body.String(), `"success"`) {
+		verifsim.Probe("c15_pull_ok")
+	}
+}
+
 func (cw *c15World) clientTask(id int) {
 	for i := 0; i < cw.nOps; i++ {
+		if i == 0 && cw.pullBurst {
+			verifsim.Sleep(time.Duration(verifsim.Draw("think", 20)) * time.Millisecond)
+			cw.pullRemote()
+			continue
+		}
 		verifsim.Sleep(time.Duration(verifsim.Draw("think", 400)) * time.Millisecond)
+		if cw.remote != nil && verifsim.Draw("pull-remote", 10) == 0 {
+			cw.pullRemote()
+			continue
+		}
 		cw.op(id)
 	}
 	cw.clientDone()
@@ -387,6 +408,11 @@ func runC15(t *testing.T, tape *verifsim.Tape, prop, tier string, keepLog bool) 
 		w.addFamily("gb", 2, false, apiTmplPlain, "beta", "beta2", "Beta:Mixed")
 		if d("embed-fam", 3) != 0 {
 			w.addFamily("em", 1, true, "", "embed", "embed2")
+		}
+		if d("remote", 4) != 0 {
+			cw.remote = w.addRemote("ra", 2, apiTmplPlain, "rem")
+			w.net.failRate = []int{0, 0, 6}[d("cdnfail", 3)]
+			cw.pullBurst = d("pullburst", 3) == 0
 		}
 		cw.extra = [][]byte{[]byte("license text A"), []byte("{\"some\":\"json\"}"), []byte("")}
 		w.quiet = false
